@@ -224,6 +224,7 @@ def main(argv=None):
     os.makedirs(replay_dir, exist_ok=True)
     violations = []
     undecided = []
+    kf_table_reported = []
     n_valid = 0
     backends = {}
     solver_time = 0.0
@@ -243,9 +244,16 @@ def main(argv=None):
             violations.append((name, o))
 
     out_lines = []
+    real_violations = []
     exit_code = 0
     confirmed_violations = 0
+    table_findings = {f.get("obligation"): f for f in open_findings if f.get("kind") == "table"}
     for name, o in violations:
+        tf = table_findings.get(name)
+        if tf is not None and str((o["witness"] or {}).get("detail")) == str(tf.get("detail")):
+            out_lines.append("KNOWN-FINDING: property=%s %s" % (prop, tf.get("what")))
+            kf_table_reported.append(tf.get("id"))
+            continue
         safe = name.replace("/", "_").replace("#", "-").replace("[", "_").replace("]", "_")
         wpath = os.path.join(replay_dir, safe + ".json")
         w = o["witness"] or {"obligation": name, "model_complete": False}
@@ -268,11 +276,14 @@ def main(argv=None):
         else:
             confirmed_violations += 1
         out_lines.append("VIOLATION property=%s replay=%s obligation=%s%s" % (prop, wpath, name, suffix))
+        real_violations.append(name)
         exit_code = 1
 
     # ---- known findings: replay recorded witnesses
-    kf_reported = []
+    kf_reported = list(kf_table_reported)
     for f in open_findings:
+        if f.get("kind") == "table":
+            continue
         rr = {"confirmed": None}
         wfile = f.get("witness_file")
         if wfile:
@@ -300,13 +311,15 @@ def main(argv=None):
     wall = time.time() - t_start
     # ---- evidence
     if not args.no_evidence and not args.only:
-        write_evidence(prop, tier, seed, results, obligs, controls, n_valid, violations, undecided,
-                       backends, solver_time, max_time, kf_reported, wall, api, crashes, bounded_names)
+        kf_names = [n for n, o in violations if n not in real_violations]
+        write_evidence(prop, tier, seed, results, obligs, controls, n_valid,
+                       [(n, o) for n, o in violations if n in real_violations], undecided,
+                       backends, solver_time, max_time, kf_reported, wall, api, crashes, bounded_names, kf_names)
     print("%s: %d obligations, %d discharged%s, %d refuted, %d undecided, %d negative controls refuted "
           "(%d VCs, %.1fs wall, solver %.1fs)"
-          % (prop, len(obligs) - len(bounded_names), n_valid,
+          % (prop, len(obligs) - len(bounded_names) - (len(violations) - len(real_violations)), n_valid,
              (" (+%d bounded stand-in obligations, not counted)" % len(bounded_names)) if bounded_names else "",
-             len(violations), len(undecided),
+             len(real_violations), len(undecided),
              sum(1 for o in controls.values() if o["status"] == "refuted"),
              sum(o["vcs"] for o in obligs.values()), wall, solver_time))
     if args.verbose:
@@ -334,7 +347,8 @@ def _jsonable(m):
 
 
 def write_evidence(prop, tier, seed, results, obligs, controls, n_valid, violations, undecided,
-                   backends, solver_time, max_time, kf_reported, wall, api, crashes, bounded_names=None):
+                   backends, solver_time, max_time, kf_reported, wall, api, crashes, bounded_names=None,
+                   kf_names=()):
     bounded_names = bounded_names or {}
     functions = sorted({c.target for c in api.REGISTRY if c.prop == prop or prop in c.also})
     trusted = set()
@@ -368,14 +382,15 @@ def write_evidence(prop, tier, seed, results, obligs, controls, n_valid, violati
                         "time_s": round(o["time"], 3), "backends": o["backends"]})
     bounded = [{"contract": c.label, "bound": c.bounded} for c in api.REGISTRY
                if (c.prop == prop or prop in c.also) and c.bounded]
-    n_unbounded = len(obligs) - len(bounded_names)
+    n_unbounded = len(obligs) - len(bounded_names) - len(kf_names)
     ev = {
         "property_id": prop,
         "tier": tier,
         "seed": seed,
         "level": "proof" if n_unbounded > 0 else "other",
         "coverage": {
-            "obligations": len(obligs) - len(bounded_names),
+            "obligations": len(obligs) - len(bounded_names) - len(kf_names),
+            "known_finding_obligations": list(kf_names),
             "discharged": n_valid,
             "bounded_standin_obligations": {n: {"bound": b, "status": obligs[n]["status"]}
                                             for n, b in sorted(bounded_names.items())},
